@@ -23,8 +23,10 @@ def render(L):
     bound = {f: {} for f in files}         # file -> local name -> True
     hop = []
 
+    dname = L["dname"]                     # declared name (E2 is declared as E in a file of its own)
+
     def ename(d):
-        return d + "X" if exp[d] == "renamed" and place[d] != "entry" else d
+        return dname[d] + "X" if exp[d] == "renamed" and place[d] != "entry" else dname[d]
 
     def user_file(u):
         return "entry" if u == "T" else place[u]
@@ -101,6 +103,15 @@ def render(L):
             body, head = f'{{ a: string; b?: {ref("A", "B")}; self?: A }}', "type A"
         elif d == "G":
             body, head = "{ x: X }", "type G<X>"
+        elif d in ("E", "E2"):
+            members = '{ P = "p", Q = "q" }' if d == "E" else '{ P = "fp", R = "r" }'
+            st = exp[d] if f != "entry" else "inline"
+            n = dname[d]
+            if st == "inline":
+                return f"export enum {n} {members}"
+            core = ("declare " if kind[f] == "dts" else "") + f"enum {n} {members}"
+            tail = {"list": f"export {{ {n} }};", "renamed": f"export {{ {n} as {n}X }};", "default": f"export default {n};"}[st]
+            return core + "\n" + tail
         else:
             body, head = None, None
         st = exp[d] if f != "entry" else "inline"
@@ -118,9 +129,9 @@ def render(L):
         tail = {"list": f"export {{ {d} }};", "renamed": f"export {{ {d} as {d}X }};", "default": f"export default {d};"}[st]
         return f"{head} = {body};\n{tail}"
 
-    for d in ["B", "A", "G", "k"]:
+    for d in ["B", "A", "G", "k", "E", "E2"]:
         files[place[d]].append(decl(d))
-    root = f'type T = {{ a: {ref("T", "A")}; b: {ref("T", "B")}; k: typeof {ref("T", "k")}; g: {ref("T", "G")}<{ref("T", "B")}> }};'
+    root = f'type T = {{ a: {ref("T", "A")}; b: {ref("T", "B")}; k: typeof {ref("T", "k")}; g: {ref("T", "G")}<{ref("T", "B")}>; e: {ref("T", "E")}.P; f: {ref("T", "E2")}.P }};'
     files["entry"].append(root)
     files["entry"].append("parse.buildParsers<{ T: T }>();")
     if L["decoy"] != "none":
@@ -138,7 +149,8 @@ def render(L):
 
 def broken_name(L):
     d = L["broken"]["d"]
-    return (d + "X" if L["exp"][d] == "renamed" and L["place"][d] != "entry" else d) + "Missing"
+    n = L["dname"][d]
+    return (n + "X" if L["exp"][d] == "renamed" and L["place"][d] != "entry" else n) + "Missing"
 
 
 def run(prop, tier):
@@ -189,6 +201,16 @@ def run(prop, tier):
                                           {"key": "b", "v": {"k": "str", "s": "y"}}, {"key": "k", "v": {"k": "obj", "c": "plain", "ps": [{"key": "v", "v": {"k": "num", "n": "2"}}]}},
                                           {"key": "g", "v": {"k": "obj", "c": "plain", "ps": [{"key": "x", "v": {"k": "str", "s": "x"}}]}}]},
     ]
+    S = lambda x: {"k": "str", "s": x}
+    for q in probes[len(common):]:
+        q["ps"] += [{"key": "e", "v": S("p")}, {"key": "f", "v": S("fp")}]
+    swapped = copy.deepcopy(probes[len(common)])
+    swapped["ps"][-2:] = [{"key": "e", "v": S("fp")}, {"key": "f", "v": S("p")}]
+    same = copy.deepcopy(probes[len(common)])
+    same["ps"][-2:] = [{"key": "e", "v": S("p")}, {"key": "f", "v": S("p")}]
+    other = copy.deepcopy(probes[len(common)])
+    other["ps"][-2:] = [{"key": "e", "v": S("q")}, {"key": "f", "v": S("r")}]
+    probes += [swapped, same, other]
     reqs = [vlib.compile_req(i, p["files"]) for i, p in enumerate(projects)]
     comp = vlib.compile_all(reqs)
     jobs = [{"id": i, "code": r["code"], "root": "T", "probes": probes, "ops": ["validate", "hash"]} for i, r in enumerate(comp) if r["outcome"] == "code"]
